@@ -1289,7 +1289,17 @@ func (db *DB) CreateJournal() (*os.File, error) {
 
 	f, err := db.os.OpenFile("CREATEJOURNAL", db.JournalPath(), os.O_RDWR|os.O_CREATE|os.O_EXCL|os.O_TRUNC, 0o666)
 	TraceLog.Printf("[CreateJournal(%s)]: %s", db.name, errorKeyValue(err))
-	return f, err
+	if err != nil {
+		return nil, err
+	}
+
+	// Only a connection in rollback mode creates a journal. When SQLite
+	// switches the journal mode away from WAL, the database header still says
+	// WAL until this very transaction rewrites page 1, so start tracking dirty
+	// pages now or the page would be missing from the transaction's LTX file.
+	db.mode.Store(DBModeRollback)
+
+	return f, nil
 }
 
 // OpenJournal returns a handle for the journal file.
